@@ -10,6 +10,7 @@ pub mod fixint;
 pub mod maxsize;
 pub mod io;
 pub mod schema;
+pub mod typed_gen;
 pub mod schema_typed;
 pub mod dynchk;
 pub mod dyn_typed;
